@@ -26,11 +26,13 @@ type c05Case struct {
 	Seed   string
 	Muts   []string
 	Data   []byte
+	Procs  int // GOMAXPROCS while the entry points run (0 = leave as is): worker counts of the parallel readers depend on it
 }
 
 func genC05(t *rapid.T) *c05Case {
 	c := &c05Case{Source: rapid.SampledFrom([]string{"mutate", "mutate", "mutate", "mutate", "mutate", "random", "chunks", "vp8lgen", "vp8gen"}).Draw(t, "source")}
 	pool := seeds()
+	c.Procs = rapid.SampledFrom([]int{0, 0, 1, 2, 3, 4}).Draw(t, "procs")
 	switch c.Source {
 	case "mutate":
 		s := pool[rapid.IntRange(0, len(pool)-1).Draw(t, "seedIdx")]
@@ -304,6 +306,10 @@ func checkC05(c *c05Case, o *core.Obs) error {
 	// canvas with a handful of frames takes about a second) and scale with the declared size, and an
 	// expiry must reproduce with a much longer limit before it counts as a hang.
 	limit := 30*time.Second + time.Duration(declared/20000)*time.Millisecond
+	if c.Procs > 0 {
+		defer runtime.GOMAXPROCS(runtime.GOMAXPROCS(c.Procs))
+		o.Labelf("gomaxprocs=%d", c.Procs)
+	}
 	r, done := runC05Guarded(data, full, limit)
 	if !done {
 		r, done = runC05Guarded(data, full, 6*limit)
